@@ -11,6 +11,13 @@ spec["array_diff_branches"] = [ [gallina-prefix, ptr1, ptr2, diffvar], ... ]    
       <p>_types                       case labels of the branch (the switch that assigns ptr1 = (T *)buf1)
       <p>_diff a b                    value stored in diffvar by `diffvar = EXPR;` (incl. narrowing to its type)
       <p>_over d lim                  the C truth value of the `else if (diffvar > (int32)err_limit)` test
+spec["array_diff_float_branches"] = [ [gallina-prefix, ptr1, ptr2, diffvar], ... ]
+   -> <p>_elt_bits (32 / 64: float32 / float64 pointers) and <p>_diff : fexpr, the *width skeleton* of the
+      expression stored in diffvar: which subtraction is carried out at which width, where a value is narrowed
+      (casts to float32 / float, fabsf's parameter, assignment to a float32 variable); widening is exact and
+      leaves no trace.  fabs vs fabsf, (float32) vs (float64) therefore change the generated term.
+spec["switch_scrutinee"] = [ [file, function, marker-text-inside-the-switch, gallina-name, c-variable], ... ]
+   -> Definition name (nt : Z) : Z := the switch's controlling expression with c-variable := nt
 spec["call_args"] = [ [file, function, callee, argindex, gallina-name, [params], {c-subexpr: ident}], ... ]
    -> Definition name params : Z := untyped translation of that argument (casts to uint32 etc. dropped only when
       listed in the substitution map)
@@ -189,6 +196,81 @@ class TP:
         return x
 
 
+FTYPES = {"float32": 32, "float": 32, "float64": 64, "double": 64}
+
+
+class FP:
+    """float expression -> (fexpr term, width).  Grammar: primary { - primary }, primary = leaf | (T)primary |
+    (expr) | fabs(expr) | fabsf(expr)"""
+
+    def __init__(self, s, leaves):
+        self.toks = re.findall(r"[A-Za-z_][A-Za-z0-9_]*|[()\-]", s)
+        if "".join(self.toks) != re.sub(r"\s+", "", s):
+            raise ValueError("float translator: unsupported characters in %r" % s)
+        self.i = 0
+        self.leaves = leaves
+
+    def peek(self, k=0):
+        return self.toks[self.i + k] if self.i + k < len(self.toks) else None
+
+    def eat(self, t=None):
+        x = self.peek()
+        if t is not None and x != t:
+            raise ValueError("float translator: expected %s got %s" % (t, x))
+        self.i += 1
+        return x
+
+    @staticmethod
+    def to(term, w, target):
+        return "(FNarrow %d %s)" % (target, term) if target < w else term
+
+    def expr(self):
+        a, wa = self.primary()
+        while self.peek() == "-":
+            self.eat()
+            b, wb = self.primary()
+            w = max(wa, wb)
+            a, wa = "(FSub %d %s %s)" % (w, a, b), w
+        return a, wa
+
+    def primary(self):
+        t = self.peek()
+        if t == "(":
+            if self.peek(1) in FTYPES and self.peek(2) == ")":
+                w = FTYPES[self.peek(1)]
+                self.i += 3
+                x, wx = self.primary()
+                return self.to(x, wx, w), w
+            self.eat("(")
+            x = self.expr()
+            self.eat(")")
+            return x
+        self.eat()
+        if t in self.leaves:
+            return self.leaves[t]
+        if t in ("fabs", "fabsf") and self.peek() == "(":
+            w = 64 if t == "fabs" else 32
+            self.eat("(")
+            x, wx = self.expr()
+            self.eat(")")
+            return "(FAbs %s)" % self.to(x, wx, w), w
+        raise ValueError("float translator: unknown identifier %s" % t)
+
+    def all(self):
+        x = self.expr()
+        if self.peek() is not None:
+            raise ValueError("float translator: trailing tokens %s" % self.toks[self.i:])
+        return x
+
+
+def fdecl_width(body, var, pointer=False):
+    star = r"\*\s*" if pointer else ""
+    m = re.search(r"\b(float32|float64|float|double)\s+(?:\*?\s*[A-Za-z_][A-Za-z0-9_]*\s*(?:=[^,;]*)?,\s*)*%s%s\s*(?:=[^,;]*)?[,;]" % (star, re.escape(var)), body)
+    if not m:
+        raise ValueError("floating declaration of %s not found" % var)
+    return FTYPES[m.group(1)]
+
+
 def decl_type(body, var, pointer=False):
     star = r"\*\s*" if pointer else ""
     m = re.search(r"\b((?:unsigned\s+|signed\s+)?[A-Za-z_][A-Za-z0-9_]*)\s+(?:\*?\s*[A-Za-z_][A-Za-z0-9_]*\s*(?:=[^,;]*)?,\s*)*%s%s\s*(?:=[^,;]*)?[,;]" % (star, re.escape(var)), body)
@@ -257,6 +339,47 @@ def emit(repo, spec, H):
             out.append("Definition %s_types : list Z := [%s]." % (pre, "; ".join(str(x) for x in labels)))
             out.append("Definition %s_diff (a b : Z) : Z := %s." % (pre, term))
             out.append("Definition %s_over (d lim : Z) : Z := %s." % (pre, cterm))
+    if spec.get("array_diff_float_branches"):
+        body = H.func_body(H.src(repo, f), "array_diff")
+        for pre, p1, p2, dv in spec["array_diff_float_branches"]:
+            ew = fdecl_width(body, p1, pointer=True)
+            if fdecl_width(body, p2, pointer=True) != ew:
+                raise ValueError("%s and %s have different element types" % (p1, p2))
+            dw = fdecl_width(body, dv)
+            a = one(r"\b%s\s*=\s*([^;]+);" % re.escape(dv), body, "assignment to %s" % dv)
+            cexpr = " ".join(a.group(1).split())
+            e = cexpr.replace("*" + p1, " ELT_A ").replace("*" + p2, " ELT_B ")
+            term, w = FP(e, {"ELT_A": ("FA", ew), "ELT_B": ("FB", ew)}).all()
+            term = FP.to(term, w, dw)
+            out.append("(* %s: array_diff: %s elements are float%d; `float%d %s = %s;` *)" % (
+                f, pre, ew, dw, dv, cexpr.replace("*)", "* )").replace("(*", "( *")))
+            out.append("Definition %s_elt_bits : Z := %d." % (pre, ew))
+            out.append("Definition %s_diff : fexpr := %s." % (pre, term))
+    for ff, fn, marker, name, cvar in spec.get("switch_scrutinee", []):
+        body = H.func_body(H.src(repo, ff), fn)
+        found = None
+        for m in re.finditer(r"\bswitch\s*\(", body):
+            i, depth = m.end(), 1
+            while depth:
+                depth += {"(": 1, ")": -1}.get(body[i], 0)
+                i += 1
+            scrut = body[m.end():i - 1]
+            j = body.index("{", i)
+            k, depth = j + 1, 1
+            while depth:
+                depth += {"{": 1, "}": -1}.get(body[k], 0)
+                k += 1
+            if re.sub(r"\s+", "", marker) in re.sub(r"\s+", "", body[j:k]):
+                found = scrut
+        if found is None:
+            raise ValueError("%s: %s: no switch containing %r" % (ff, fn, marker))
+        env = {}
+        env.update(H.all_enums(H.src(repo, ff)))
+        env.update(H.defines(repo, ff))
+        cexpr = " ".join(found.split())
+        term = H.P(re.sub(r"\b%s\b" % re.escape(cvar), " nt ", cexpr), ["nt"], env).ternary_all()
+        out.append("(* %s: %s: switch (%s) *)" % (ff, fn, cexpr))
+        out.append("Definition %s (nt : Z) : Z := %s." % (name, term))
     for ent in spec.get("call_args", []):
         ff, fn, callee, idx, name, params, subst = ent
         body = H.func_body(H.src(repo, ff), fn)
